@@ -62,6 +62,23 @@ CHECKS["C20"] = dict(
     note="Interleavings at lock-operation and hooked-atomic granularity; lock-free internals of dashmap/crossbeam are not explored at their own granularity. The LpgStore full-mix family has open known findings (component structures updated under separate locks) that mask further deviations in the same outcome component; the lpg-core, rdf, txm and buffer families have none.",
 )
 
+CHECKS["C01"] = dict(
+    engine="HIST",
+    technique="deterministic simulation of multi-session histories: the simulator owns all sessions of one GrafeoDB and draws the total order of begin/mutation/read/commit/rollback from the run seed; every read is compared with an executable snapshot-isolation reference model; deviations are classified against an unmodified twin of the pinned tree run in lock-step on the same history",
+    category="exploration",
+    text="Seeded search (20k quick / 1M thorough histories, 2-4 sessions, 6-60 steps) with every kind of read placed inside other sessions' open transactions, right after every commit/rollback by every session, and repeated inside transactions. The reference model (RefMvcc) pins a snapshot at begin, overlays the transaction's own writes, and publishes at commit. A read that differs from the model is a violation unless it is byte-for-byte the answer of the pinned tree on the same history AND its (access path, reader context) is listed in known_findings.jsonl.",
+    design_ref="DESIGN.md §3 C01, §2.5a",
+    note="The pinned tree violates C01 on almost every access path (see known findings: no real isolation); what this check still decides is that the working tree never deviates from the specification in any way the pinned tree did not. Interleaving granularity = whole session calls; overlapping writers of one entity are excluded (C03). Trusted: RefMvcc (~150 lines) and the id->slot normalisation.",
+)
+CHECKS["C02"] = dict(
+    engine="HIST",
+    technique="deterministic simulation of multi-session histories with one transaction under the microscope; after every commit/rollback/session-drop a fresh session dumps the database through every access path and the dump is compared with the reference model's committed state; deviations classified against the lock-step pinned twin",
+    category="exploration",
+    text="Seeded search (20k quick / 1M thorough) over transactions of 1-4 mutations (every mutation route) ended by commit, rollback or dropping the session while other sessions interleave committed work. After rollback/drop the dump must equal the model without the transaction, after commit with all of it. A differing dump is a violation unless it equals the pinned tree's dump on the same history and its (end, access path) is a listed known finding.",
+    design_ref="DESIGN.md §3 C02, §2.5a",
+    note="Failed commits cannot be produced through the public API on this tree (no write sets are registered by sessions), so that end is not generated. Same trusted base as C01.",
+)
+
 NOT_APPLICABLE = {
     "C08": "pure function of (graph, query text): no schedule, clock, I/O, fault or shared state in the statement or its quantifier; differential/reference-interpreter testing is the fitting family, not simulation",
     "C09": "pure function of (graph, statistics state, query, optimizer switches); stale statistics are an input, not a schedule",
@@ -88,6 +105,7 @@ manifest = {
     "engines": [
         {"name": "TXM", "path": "sim/src/eng_txm.rs", "serves_properties": ["C03", "C04"], "kind_free_text": "single-threaded history simulator over TransactionManager with a reference model"},
         {"name": "STORE", "path": "sim/src/eng_store.rs", "serves_properties": ["C14"], "kind_free_text": "single-store history simulator over LpgStore with a brute-force reference graph"},
+        {"name": "HIST", "path": "sim/src/eng_hist.rs", "serves_properties": ["C01", "C02"], "kind_free_text": "multi-session history simulator: working tree, RefMvcc specification and the pinned twin (/verif/pinned) in lock-step"},
         {"name": "SCHED", "path": "sim/src/eng_sched.rs", "serves_properties": ["C20"], "kind_free_text": "shuttle-scheduled simulated threads over the real stores/managers via the parking_lot lock seam (shims/parking_lot) and hooked atomics"},
         {"name": "DISK", "path": "sim/src/eng_disk.rs", "serves_properties": ["C05", "C06"], "kind_free_text": "persistent GrafeoDB over a tapped tmpfs directory + simulated clock; crash images computed from the disk-event log"},
     ],
